@@ -1178,11 +1178,17 @@ package router
 //@   aftercall ReadMsgUDPAddrPort: gOobN = ret1
 //@   aftercall ReadMsgUDPAddrPort: gAddr = ret3
 //@   aftercall ReadMsgUDPAddrPort: gErr = ret4
+//@   ghost nOK int = 0
+//@   ghost nH int = 0
+//@   aftercall ReadMsgUDPAddrPort: nOK = nOK + (ret4 == nil ? 1 : 0)
+//@   oncall handleMsg: nH = nH + 1
 //@   modifies *
+//@   ensures [C01:loop-ends-only-on-a-read-error] err != nil
+//@   ensures [C03:every-datagram-read-is-handled-once] nH == nOK
 //@   callsite handleMsg: [C03:exactly-the-datagram-that-was-read] arg0 == s && gErr == nil && sameSlice(arg1, b, 0, gN) && sameSlice(arg2, oob, 0, gOobN) && arg3 == gAddr && arg4 == listenerAddr
 //@   loop 1:
 //@     modifies *
-//@     invariant s != nil && routerReady(s.r) && udpOK(s) && c != nil && len(b) == 2048 && len(oob) == 512
+//@     invariant s != nil && routerReady(s.r) && udpOK(s) && c != nil && len(b) == 2048 && len(oob) == 512 && nH == nOK
 
 // udpServer.startThreadLinux (batched read loop, recvmmsg): of the 16 message slots only the first n - those the
 // last ReadBatch filled - are handled, each once, as exactly the bytes and control bytes it received.
@@ -1193,7 +1199,12 @@ package router
 //@   ghost gN int = 0
 //@   assumecall LocalAddr: typeIs(ret0, *net.UDPAddr) && ptrOf(ret0, net.UDPAddr) != nil
 //@   aftercall ReadBatch: gN = ret0
+//@   ghost nH int = 0
+//@   aftercall ReadBatch: nH = 0
+//@   oncall handleMsg: nH = nH + 1
 //@   modifies *
+//@   ensures [C01:loop-ends-only-on-a-read-error] err != nil
+//@   callsite ReadBatch: [C03:previous-batch-fully-handled] nH == (gN > 0 ? gN : 0)
 //@   callsite handleMsg: [C03:only-messages-of-this-batch] arg0 == s && 0 <= i && i < gN && sameSlice(arg1, ms[i].Buffers[0], 0, ms[i].N) && sameSlice(arg2, ms[i].OOB, 0, ms[i].NN) && arg4 == listenerAddr
 //@   loop 1:
 //@     invariant len(ms) == 16
@@ -1202,10 +1213,10 @@ package router
 //@     invariant forall(k, 0, rangeindex + 1, len(ms[k].OOB) == 512)
 //@   loop 2:
 //@     modifies *
-//@     invariant s != nil && routerReady(s.r) && udpOK(s) && c != nil && v6c != nil && len(ms) == 16 && forall(k, 0, 16, len(ms[k].Buffers) == 1 && len(ms[k].Buffers[0]) == 2048 && len(ms[k].OOB) == 512)
+//@     invariant s != nil && routerReady(s.r) && udpOK(s) && c != nil && v6c != nil && len(ms) == 16 && forall(k, 0, 16, len(ms[k].Buffers) == 1 && len(ms[k].Buffers[0]) == 2048 && len(ms[k].OOB) == 512) && nH == (gN > 0 ? gN : 0)
 //@   loop 3:
 //@     modifies field(limiter.e), field(time.Time)
-//@     invariant 0 <= gN && gN <= 16
+//@     invariant 0 <= gN && gN <= 16 && nH == rangeindex_2 + 1
 
 // tcpServer.run (accept loop, TCP and DoT): every accepted connection is charged - 15 for TLS, 3 for plain TCP -
 // to its remote address; a refused connection is closed and never handled.
